@@ -31,7 +31,8 @@ EXPECTED_PROBES = ["block1_multi", "block2_multi", "szx_reduced_block1", "szx_re
 LENGTHS = [0, 1, 15, 16, 17, 31, 32, 33, 63, 64, 65, 127, 128, 129, 511, 512, 513, 1023, 1024, 1025, 1124, 1125,
            2047, 2048, 2049, 3000, 5000]
 MISBEHAVE = ["b1_wrong_num", "b1_more_on_final", "b1_231_on_final", "b2_short", "b2_skip", "b2_etag_change",
-             "b2_first_num_wrong", "b2_nonblock_mid", "b2_etag_dropped", "b2_etag_appears", "b2_error_mid", "b2_code_change"]
+             "b2_first_num_wrong", "b2_nonblock_mid", "b2_etag_dropped", "b2_etag_appears", "b2_error_mid", "b2_code_change",
+             "b2_back", "b2_back_mislabel", "b2_zero_final"]
 METHODS = {"GET": rc.GET, "PUT": rc.PUT, "POST": rc.POST, "FETCH": rc.FETCH}
 
 
@@ -404,6 +405,20 @@ class RefServer7959(ScriptedEndpoint):
             start += size
             st["misbehaved"] = True
             self.sim.probe("misbehave_b2_skip")
+        label, force_last = None, False
+        if mb in ("b2_back", "b2_back_mislabel", "b2_zero_final") and k == max(1, spec["at"]) and start > 0:
+            # a follow-up request answered with a block that lies BEHIND the one asked for: the previous block once more
+            # (under its own number), the requested data under the previous block's number, or block 0 again, marked
+            # final -- in every case a wrong block number
+            st["misbehaved"] = True
+            self.sim.probe("misbehave_b2_earlier_block")
+            if mb == "b2_back":
+                snum -= 1
+                start -= size
+            elif mb == "b2_back_mislabel":
+                label = snum - 1
+            else:
+                snum, start, force_last = 0, 0, True
         if mb == "b2_first_num_wrong" and k == 0 and n > size:
             snum += 1
             start += size
@@ -463,7 +478,7 @@ class RefServer7959(ScriptedEndpoint):
             self.sim.probe("misbehave_b2_short")
         if etag_here:
             opts.append((rc.ETAG, etag))
-        opts.append((rc.BLOCK2, rc.block_bytes(snum, more, szx)))
+        opts.append((rc.BLOCK2, rc.block_bytes(snum if label is None else label, more and not force_last, szx)))
         return {"code": code, "options": opts, "payload": chunk}
 
 
